@@ -142,6 +142,21 @@ theorem read_is_recovered (s : St) (t k : Nat) (h : Inv s) (hl : s.lock k = some
   have := pending_on_locked_key_is_unstable s t k h hl c hc (hp c hc) kv hkv e
   exact hu c hc this kv hkv e
 
+/-- ... whatever part of the pending log a crash happens to keep (the journal may have written any
+    prefix of it: `Props/C01.recovered_is_prefix_state`) -/
+theorem read_is_recovered_any_prefix (s : St) (t k n : Nat) (h : Inv s) (hl : s.lock k = some t)
+    (hp : ∀ c ∈ s.pend, c.1 ≠ t)
+    (hu : ∀ c ∈ s.pend, c.2.1 = true → ∀ kv ∈ c.2.2, kv.1 ≠ k) :
+    s.read k = valOf (s.dur ++ s.pend.take n) k := by
+  rw [read_is_recovered s t k h hl hp hu]
+  unfold St.recovered
+  symm
+  apply valOf_append_untouched
+  intro c hc kv hkv e
+  have hc' : c ∈ s.pend := List.mem_of_mem_take hc
+  have := pending_on_locked_key_is_unstable s t k h hl c hc' (hp c hc') kv hkv e
+  exact hu c hc' this kv hkv e
+
 /-- the durable log only grows, by appending -/
 theorem step_dur_prefix (s s' : St) (op : Op) (hs : step s op = some s') : ∃ ext, s'.dur = s.dur ++ ext := by
   cases op with
